@@ -61,7 +61,8 @@ var nullLeaves = []Kind{KNullInt, KNullBool, KNullFloat, KNullString, KNullTime}
 
 var namedVarint = []string{"NInt", "NInt8", "NInt32", "NInt64", "NUint", "NUint16", "NUint8", "NBool"}
 var namedFloat = []string{"NFloat64", "NFloat32"}
-var namedLen = []string{"NString", "NBytes", "NInts"} // length-delimited wire type
+var namedLen = []string{"NString", "NBytes", "NInts"}                      // length-delimited wire type
+var namedBig = []string{"Blk64", "Big192", "Big192", "Big1024", "Big1032"} // comparable, 64..1032 bytes
 var namedStructs = []string{"Leaf", "Mid", "PairIS", "Embeds", "EmbedsPtr", "WithJSON"}
 var namedRecursive = []string{"Tree", "List", "MutA", "MutB", "Cyc1", "Cyc2", "Cyc3", "MapRec", "PtrSliceRec", "PairLeafTree", "TreeP", "TagMutA", "TagMutB"}
 
@@ -149,6 +150,9 @@ func (g *tgen) leaf(allowUint8 bool) *TSpec {
 }
 
 func (g *tgen) namedStruct() *TSpec {
+	if rapid.IntRange(0, 11).Draw(g.t, "bigst") == 0 {
+		return NamedT(pick(g.t, "nbg", namedBig))
+	}
 	if !g.p.NoRecursive && rapid.IntRange(0, 2).Draw(g.t, "rec") == 0 {
 		return NamedT(pick(g.t, "nrs", namedRecursive))
 	}
@@ -230,8 +234,15 @@ func (g *tgen) key() *TSpec {
 	case 2:
 		return g.float()
 	default:
+		if g.p.Named && rapid.IntRange(0, 7).Draw(g.t, "kbig") == 0 {
+			// keys beyond the runtime's inline key size and beyond 1024 bytes
+			return NamedT(pick(g.t, "nbk", namedBig))
+		}
 		// struct key of comparable leaves
 		n := rapid.IntRange(1, 3).Draw(g.t, "kn")
+		if rapid.IntRange(0, 5).Draw(g.t, "kwide") == 0 {
+			n = rapid.IntRange(4, 12).Draw(g.t, "knw")
+		}
 		idx := g.indexes(n)
 		fs := make([]Field, n)
 		for i := range fs {
@@ -286,6 +297,17 @@ func (g *tgen) mapVal(depth int) *TSpec {
 }
 
 func (g *tgen) mapT(depth int) *TSpec {
+	if g.p.Named && rapid.IntRange(0, 19).Draw(g.t, "mbig") == 0 {
+		// large keys and/or values (stored indirectly by the runtime; beyond plenc's shared zero buffer)
+		switch rapid.IntRange(0, 2).Draw(g.t, "mbigw") {
+		case 0:
+			return MapOf(NamedT(pick(g.t, "nbk", namedBig)), g.mapVal(depth))
+		case 1:
+			return MapOf(g.key(), NamedT(pick(g.t, "nbv", namedBig)))
+		default:
+			return MapOf(NamedT(pick(g.t, "nbk", namedBig)), NamedT(pick(g.t, "nbv", namedBig)))
+		}
+	}
 	return MapOf(g.key(), g.mapVal(depth))
 }
 
